@@ -15,6 +15,8 @@ import (
 	"io"
 	"net"
 	"net/netip"
+	"os"
+	"path/filepath"
 	"strconv"
 	"strings"
 	"unsafe"
@@ -547,6 +549,63 @@ func Generate(g *G, thorough bool, e Emit) {
 		}
 		for n := 0; n <= len(f); n++ {
 			g.caps(e, f[:n], "b.trunc."+cl)
+			if n < len(f) { // the rest of the valid frame lies in the spare capacity
+				e(f[:n], f[n:], "b.trunccont."+cl)
+			}
+		}
+	}
+	// 2b'. layer boundaries with a VALID continuation in the spare capacity: a well-formed frame of every class cut at
+	// exactly each header boundary (14, 18, 22, +IHL, +40, +8 UDP, +20 TCP, +8 ICMP) and handed over as buf[:L] of the
+	// buffer that still holds the rest of the frame; the same cut with zero, garbage and no spare capacity; the same
+	// with another source MAC in front of the retained tail (the frame received before in the same buffer).
+	for rep := 0; rep < 6*scale; rep++ {
+		for _, proto := range []byte{17, 6, 1, 58, 2, 0} {
+			for v6 := 0; v6 < 2; v6++ {
+				seg, cl := g.L4(proto, v6 == 1)
+				var f []byte
+				l3 := 20
+				if v6 == 1 {
+					f = Ether(g.DstMAC(), MACClient1, 0x86dd, IP6(len(seg), proto, g.IP6(), g.IP6(), seg))
+					l3 = 40
+					cl = "ip6." + cl
+				} else {
+					ihl := 5
+					if r.Chance(30) {
+						ihl = 6 + r.Intn(10)
+					}
+					f = Ether(g.DstMAC(), MACClient1, 0x0800, IP4(ihl, ihl*4+len(seg), proto, g.IP4(), g.IP4(), r.Bytes((ihl-5)*4), seg))
+					l3 = ihl * 4
+					cl = "ip4." + cl
+				}
+				for _, L := range []int{12, 13, 14, 15, 14 + 19, 14 + 20, 14 + l3 - 1, 14 + l3, 14 + l3 + 1, 14 + l3 + 7, 14 + l3 + 8, 14 + l3 + 19, 14 + l3 + 20} {
+					if L > len(f) {
+						continue
+					}
+					cut := append([]byte{}, f[:L]...)
+					if L >= 12 && r.Bool() { // another sender in front of the retained tail
+						copy(cut[6:12], g.SrcMAC())
+					}
+					e(cut, f[L:], "b.cutcont."+cl)
+					e(cut, make([]byte, len(f)-L), "b.cutzero."+cl)
+					e(cut, r.Bytes(len(f)-L), "b.cutrand."+cl)
+					e(cut, nil, "b.cutexact."+cl)
+				}
+			}
+		}
+		// ARP and every other EtherType class (tagged ones included) in front of a valid IPv4 / ARP continuation
+		inner4 := IP4(5, 28, 17, g.IP4(), g.IP4(), nil, UDP(g.Port(), g.Port(), nil))
+		innerA := ARP(6, 4, 1, MACClient2, []byte{192, 168, 0, 7}, g.DstMAC(), g.IP4())
+		for _, et := range EtherTypes {
+			for _, inner := range [][]byte{inner4, innerA} {
+				f := Ether(g.DstMAC(), MACClient1, et, cat(r.Bytes(r.Pick(0, 4, 8)), inner))
+				for _, L := range []int{14, 18, 22, 14 + 5, 14 + 18, 14 + 27, 14 + 28} {
+					if L > len(f) {
+						continue
+					}
+					e(f[:L], f[L:], "b.cutcont.et")
+					e(f[:L], nil, "b.cutexact.et")
+				}
+			}
 		}
 	}
 	// 2c. IPv4 length fields: every IHL x TotalLen at its boundaries, with and without trailing bytes
@@ -832,6 +891,29 @@ func Directed(g *G, e func(c Cfg, frame, spare []byte, class string)) {
 				f := frames[id]
 				e(c, f, g.Spare(len(f), g.R.Intn(3)), "d."+s.name)
 			}
+		}
+	}
+}
+
+// Corpus runs every case line of $VERIF_CORPUS/*.txt (refutation witnesses, past disagreements) first.
+func Corpus(r *lib.Run) {
+	dir := os.Getenv("VERIF_CORPUS")
+	if dir == "" {
+		return
+	}
+	files, _ := filepath.Glob(filepath.Join(dir, "*.txt"))
+	for _, fn := range files {
+		data, err := os.ReadFile(fn)
+		if err != nil {
+			continue
+		}
+		for _, l := range strings.Split(string(data), "\n") {
+			f := strings.Fields(l)
+			if len(f) < 2 || strings.HasPrefix(l, "#") {
+				continue
+			}
+			r.Do(f[0], f[1:]...)
+			r.Stat("class.corpus", 1)
 		}
 	}
 }
